@@ -63,6 +63,15 @@ Layouts == CASE Tier = "quick" -> {l \in [perm : {1, 4, 6}, inst : 1..2, sect : 
              [] Tier = "damage-quick" -> [perm : {1, 4}, inst : {1}, sect : {1, 3}, split : {1, 2}, ws : {FALSE}]
              [] Tier = "damage-thorough" -> [perm : {1, 4, 6}, inst : 1..2, sect : {1, 3}, split : 1..3, ws : BOOLEAN]
 
+\* The thorough universe (25 954 models x 384 layouts) is ten million documents; each model is paired with the 16-17 layouts whose
+\* index is congruent to a hash of the model modulo 23 (23 is coprime to every dimension of the layout space, so the layouts of one
+\* model spread over all dimensions, and models that differ in one component get different layouts): about 430 000 documents.
+LayoutIdx(l) == ((((l.perm - 1) * 2 + (l.inst - 1)) * 4 + (l.sect - 1)) * 4 + (l.split - 1)) * 2 + (IF l.ws THEN 1 ELSE 0)
+ModelHash(m) == Len(m.pdus) * 7 + Len(m.frames) * 3 + Len(m.signals) + Len(m.pdus[1].sigs) * 5 + Len(m.frames[1].refs) * 11
+                + (IF m.pdus[1].desc = None THEN 0 ELSE 13) + (IF m.frames[1].app = None THEN 0 ELSE 17)
+                + (IF m.frames[1].ctx = None THEN 0 ELSE 19) + Len(m.codings) * 2
+LayoutsFor(m) == IF Tier = "thorough" THEN {l \in Layouts : (LayoutIdx(l) + ModelHash(m)) % 23 = 0} ELSE Layouts
+
 \* ---------------------------------------------------------------- rendering
 Perm3(p, a, b, c) == CASE p = 1 -> a \o b \o c [] p = 2 -> a \o c \o b [] p = 3 -> b \o a \o c
                        [] p = 4 -> b \o c \o a [] p = 5 -> c \o a \o b [] p = 6 -> c \o b \o a
